@@ -187,6 +187,14 @@ def run_batch(pid, tier, seed, workers=16, max_cases=None, dump_sigs=None):
     t0 = time.time()
     wall_cap = prop.BUDGET[tier].get("wall_s", 600)
     cases = []
+    # regression cases: minimised cases that failed before a defect was repaired in /repo
+    # (known_findings.json "fixed"); they run first in every tier and must hold now
+    rdir = os.path.join(VERIF, "replays", "regress")
+    if os.path.isdir(rdir) and getattr(prop, "ENGINE", "A") == "A":
+        for fn in sorted(os.listdir(rdir)):
+            if fn.startswith(pid + "-") and fn.endswith(".json"):
+                cases.append(json.load(open(os.path.join(rdir, fn)))["case"])
+    n_regress = len(cases)
     for i, c in enumerate(prop.gen_cases(tier, seed)):
         cases.append(c)
         if max_cases and len(cases) >= max_cases:
